@@ -929,6 +929,34 @@ pub fn run_c09(args: &Args, seed: u64, tier: &str, report: &Report) -> String {
     run_shards(16, 512, |shard| {
         let mut l = Local::default();
         let mut rng = Rng::new(seed, 11_000 + shard as u64);
+        // Always included: roots whose depth-1 search alone spans several polls, so that a stop is seen
+        // before the first iteration completes (the fallback-move path). Selected by measuring.
+        let mut heavy_done = 0;
+        let mut heavy_tries = 0;
+        while heavy_done < 1 && heavy_tries < 3_000 {
+            heavy_tries += 1;
+            let Some(p) = quiescence_heavy(&mut rng) else { continue };
+            let polls = depth1_polls(&p, 40);
+            if !(3..40).contains(&polls) {
+                continue;
+            }
+            let t = Triple { fen: p.to_fen(EpConv::Always), moves: vec![], depth: 1, hash_mb: 1, warm: vec![] };
+            l.feat("pos_quiescence_heavy");
+            let ev_before = l.evaluations;
+            let r = enumerate_stops(&t, None, &mut l, 60);
+            let enc = t.encode();
+            for k in 0..(l.evaluations - ev_before) {
+                l.distinct.insert(hash_str(&format!("{enc}@{k}")));
+            }
+            if l.evaluations > ev_before {
+                heavy_done += 1;
+            }
+            if let Some((sig, what)) = r {
+                let k = what.split_whitespace().nth(3).unwrap_or("1").to_string();
+                report.violation(Violation { monitor: "c09".into(), signature: sig, what, replay_args: vec!["c09".into(), "--triple".into(), enc, "--k".into(), k], detail: J::Null });
+            }
+        }
+        report.merge_local(&mut l);
         let mut done = 0;
         let mut tries = 0;
         while done < triples / 16 + 1 && tries < triples * 4 {
